@@ -8,6 +8,7 @@ import IpcModel.RecvSetP
 import IpcModel.Ideal
 import IpcModel.Ledger.L
 import IpcModel.Timed
+import IpcModel.Async
 /-! Line-protocol driver: one request per line on stdin, one canonical answer per line on stdout.
 Imports model files only (no Mathlib/Std), so it links as a native executable. -/
 open Frag
@@ -494,6 +495,24 @@ def cmdTimed (toks : List String) : String :=
   | none => "bad-request"
   | some w => " ; ".intercalate w.outs
 
+/-! ### async streams (C20) -/
+def parseAsyncOp : List String → Option Async.Op
+  | ["new", _] => some .new
+  | ["send", c, t] => match c.toNat?, t.toNat? with | some a, some b => some (.send a b) | _, _ => none
+  | ["dropsnd", c] => c.toNat?.map .dropsnd
+  | ["tostream", c] => c.toNat?.map .tostream
+  | _ => none
+
+def cmdStream (toks : List String) : String :=
+  match (splitBar toks).filter (· ≠ []) |>.mapM parseAsyncOp with
+  | none => "bad-request"
+  | some ops =>
+    let y := Async.script ops
+    let outs := (y.chans.zipIdx).filterMap fun (ch, c) =>
+      ch.stream.bind fun s => y.r.streams[s]?.map fun st =>
+        s!"s{c}={",".intercalate (st.buf.map toString)};{if st.ended then "end" else "open"}"
+    " ".intercalate outs
+
 /-- all fault patterns (ENOBUFS or not) of length k, as numbers 0 .. 2^k-1 -/
 def patOf (k m : Nat) : List Fault := (List.range k).map fun i => if (m >>> i) % 2 = 1 then .enobufs else .none
 
@@ -528,6 +547,7 @@ def answer (line : String) : String :=
   | "ideal" :: rest => cmdIdeal rest
   | "ledger" :: rest => cmdLedger rest
   | "timed" :: rest => cmdTimed rest
+  | "stream" :: rest => cmdStream rest
   | "noop" :: _ => "ok"
   | "enc" :: rest => cmdEnc rest
   | "rt" :: rest => cmdRt rest
